@@ -90,11 +90,11 @@ type execOutcome struct {
 }
 
 type c01Witness struct {
-	Case    int      `json:"case"`
-	Block   int      `json:"block"`
-	Txs     []string `json:"txs"`
-	TxBytes []string `json:"tx_bytes"`
-	Cfg     string   `json:"cfg"`
+	Case    int               `json:"case"`
+	Block   int               `json:"block"`
+	Txs     []string          `json:"txs"`
+	TxBytes []string          `json:"tx_bytes"`
+	Cfg     string            `json:"cfg"`
 	Parent  map[string]string `json:"parent_state"`
 }
 
@@ -195,7 +195,12 @@ func TestC01(t *testing.T) {
 				for rep := 0; rep < nr; rep++ {
 					name := fmt.Sprintf("cores=%d fetch=%d sig=%d rep=%d", cfg.Cores, cfg.Fetch, cfg.SigWorkers, rep)
 					var o execOutcome
-					r.Guard("Chain.Execute", wit(name), func() { o = execOnce(ctx, fx, cfg, blk, parentView) })
+					// every run except the sequential baseline reads the parent through a slow view
+					var pv merkledb.View = parentView
+					if len(outs) > 0 {
+						pv = &slowView{View: parentView, salt: rng.Uint64()}
+					}
+					r.Guard("Chain.Execute", wit(name), func() { o = execOnce(ctx, fx, cfg, blk, pv) })
 					r.Eval()
 					outs = append(outs, o)
 					names = append(names, name)
